@@ -286,10 +286,14 @@ pub enum ROp {
     ReadRoot,
     Walk,
     WalkStorage,
+    /// walk(), and a lookup of every yielded entry while the iterator is still alive
+    WalkLookup,
+    /// recursive listing: read_root_storage(), and read_storage() of every storage it yields, inside the loop
+    Recursive,
 }
 
 pub const ALL_WOPS: [WOp; 6] = [WOp::WriteSmall, WOp::WriteLarge, WOp::Shrink, WOp::Grow, WOp::ReadSome, WOp::Overflow];
-pub const ALL_ROPS: [ROp; 9] = [ROp::Entry, ROp::Exists, ROp::IsStream, ROp::IsStorage, ROp::RootEntry, ROp::ReadStorage, ROp::ReadRoot, ROp::Walk, ROp::WalkStorage];
+pub const ALL_ROPS: [ROp; 11] = [ROp::Entry, ROp::Exists, ROp::IsStream, ROp::IsStorage, ROp::RootEntry, ROp::ReadStorage, ROp::ReadRoot, ROp::Walk, ROp::WalkStorage, ROp::WalkLookup, ROp::Recursive];
 
 #[derive(Clone, Debug, Serialize, Deserialize)]
 pub struct SchedCase {
@@ -351,6 +355,28 @@ fn do_rop(comp: &CF, op: ROp) -> Vec<String> {
             Ok(it) => it.take(ops::WALK_LIMIT).map(|e| entry_str(&e)).collect(),
             Err(e) => vec![format!("Err {}", e)],
         },
+        ROp::WalkLookup => {
+            let mut out = Vec::new();
+            for e in comp.walk().take(ops::WALK_LIMIT) {
+                out.push(entry_str(&e));
+                out.push(comp.entry(e.path()).map(|x| entry_str(&x)).unwrap_or_else(|x| format!("Err {}", x)));
+                out.push(format!("{}", comp.is_stream(e.path())));
+            }
+            out
+        }
+        ROp::Recursive => {
+            let mut out = Vec::new();
+            for e in comp.read_root_storage().take(ops::WALK_LIMIT) {
+                out.push(entry_str(&e));
+                if e.is_storage() {
+                    match comp.read_storage(e.path()) {
+                        Ok(it) => out.extend(it.take(ops::WALK_LIMIT).map(|c| entry_str(&c))),
+                        Err(x) => out.push(format!("Err {}", x)),
+                    }
+                }
+            }
+            out
+        }
     }
 }
 
